@@ -157,7 +157,11 @@ class LLOneParser:
         for production in nullable_productions:
             if production.head not in llone_parsing_table:
                 llone_parsing_table[production.head] = {}
-            for first in follow_set.get(production.head, set()):
+            firsts = set(follow_set.get(production.head, set()))
+            # A nullable body can also start with any of its first symbols
+            firsts.update(x for x in self._get_first_set_production(
+                production, first_set) if x != Epsilon())
+            for first in firsts:
                 if first not in llone_parsing_table[production.head]:
                     llone_parsing_table[production.head][first] = []
                 llone_parsing_table[production.head][first].append(
